@@ -374,6 +374,7 @@ type LoopContract struct {
 	Ordinal    int
 	Invariants []*Clause
 	BodyAsserts []*Clause // proved then assumed at the entry of the loop body
+	PreservesOld bool     // frame invariant: objects older than the function entry are not written
 }
 
 type SpecFunc struct {
